@@ -4,10 +4,13 @@ package main
 import (
 	"fmt"
 	"os"
+	"strings"
+	"time"
 
 	_ "github.com/olric-data/olric/internal/verif/checks"
 	"github.com/olric-data/olric/internal/verif/core"
 	"github.com/olric-data/olric/internal/verif/sched"
+	"github.com/olric-data/olric/internal/verif/schedmc"
 )
 
 func main() {
@@ -15,6 +18,34 @@ func main() {
 	if len(os.Args) >= 2 && os.Args[1] == "--worker" {
 		sched.Virtual = true
 		core.WorkerMain()
+		return
+	}
+	if len(os.Args) >= 4 && os.Args[1] == "racepass" {
+		// free-running pass for the race detector (binary built with -race): every program of the
+		// given schedmc families is run <rounds> times with its threads as plain goroutines
+		sched.Virtual = true
+		rounds := 1
+		fmt.Sscan(os.Args[3], &rounds)
+		progs, runs, stuck := 0, 0, 0
+		for _, fam := range strings.Split(os.Args[2], ",") {
+			gen := schedmc.Families[fam]
+			if gen == nil {
+				fmt.Fprintln(os.Stderr, "unknown family", fam)
+				os.Exit(2)
+			}
+			for _, p := range gen("quick") {
+				progs++
+				for r := 0; r < rounds; r++ {
+					runs++
+					if !schedmc.RunFree(p, 20*time.Second) {
+						stuck++
+						fmt.Printf("racepass: %s did not finish within 20s\n", p.Name)
+						break
+					}
+				}
+			}
+		}
+		fmt.Printf("racepass: families=%s programs=%d runs=%d unfinished=%d\n", os.Args[2], progs, runs, stuck)
 		return
 	}
 	if len(os.Args) < 3 {
